@@ -53,7 +53,7 @@ def _names():
 
 
 def strategy(tier):
-  meth = st.tuples(_names(), st.sampled_from(sorted(SIGS)), st.sampled_from([False, False, False, True])).map(list)
+  meth = st.tuples(_names(), st.sampled_from(sorted(SIGS)), st.sampled_from([False, False, False, True, 'classmethod'])).map(list)
   call = st.fixed_dictionaries({
       'm': st.integers(0, 20), 'nargs': st.integers(0, 4), 'kw': st.lists(st.sampled_from(['a', 'b', 'x', 'timeout']), max_size=3, unique=True),
       'mode': st.sampled_from(['async_pending', 'async_ok', 'async_fail', 'sync_ok', 'sync_fail']),
@@ -76,6 +76,7 @@ def strategy(tier):
       'own': st.lists(meth, min_size=1, max_size=6, unique_by=lambda m: m[0]),
       'base': st.one_of(st.none(), st.lists(meth, min_size=1, max_size=3, unique_by=lambda m: m[0])),
       'override': st.booleans(),
+      'base_first': st.booleans(),
       'twin': st.one_of(st.none(), st.lists(meth, min_size=1, max_size=3, unique_by=lambda m: m[0])),
       'calls': st.lists(call, min_size=1, max_size=6),
       'uri': uri,
@@ -105,6 +106,9 @@ def _mk_class(name, methods, bases):
     n, sig = meth[0], meth[1]
     d = {}
     exec(SIGS[sig].format(n=n), d)
+    if len(meth) > 2 and meth[2] == 'classmethod':
+      ns[n] = classmethod(d[n])        # looked up on the class it is a bound method, not a plain function
+      continue
     if len(meth) > 2 and meth[2]:
       # what a decorator without functools.wraps leaves behind: the attribute is the method's name, not __name__
       d[n].__name__ = 'wrapper'
@@ -134,6 +138,11 @@ def _check_proxy(plan):
   # generated-pair precondition: no m / m_async clash
   if any(n + '_async' in names for n in names):
     return None
+  if base and plan.get('base_first'):
+    # a client for the base interface is built first in this process (service B extends A, both in use)
+    base_cls = ClientProxyBuilder.CreateServiceClient(Base)
+    if not issubclass(base_cls, Base):
+      raise Violation(ID, 'proxy-not-instance', 'client class of the base interface does not derive from it')
   proxy_cls = ClientProxyBuilder.CreateServiceClient(Iface)
   if ClientProxyBuilder.CreateServiceClient(Iface) is not proxy_cls:
     raise Violation(ID, 'proxy-cache', 'CreateServiceClient returned different classes for one interface')
